@@ -85,21 +85,27 @@ func Load(opt LoadOptions) (*Program, error) {
 		RepoDir: opt.Dir,
 		Config:  fmt.Sprintf("GOOS=linux GOARCH=%s tags=%q tests=%v", archOr(opt.Arch), opt.Tags, opt.Tests),
 	}
-	for i, pk := range pkgs {
-		if !strings.HasPrefix(pk.PkgPath, modulePath) {
-			continue
-		}
-		if ssapkgs[i] == nil {
-			return nil, fmt.Errorf("no SSA for %s", pk.PkgPath)
-		}
-		if strings.HasSuffix(pk.ID, ".test") || strings.Contains(pk.ID, " [") {
-			// test variants are loaded only when opt.Tests; keep the plain package as the primary
+	isVariant := func(pk *packages.Package) bool {
+		return strings.HasSuffix(pk.ID, ".test") || strings.Contains(pk.ID, " [") || strings.HasSuffix(pk.PkgPath, "_test") || strings.HasSuffix(pk.PkgPath, ".test")
+	}
+	// plain packages first; a test variant stands in only when there is no plain package of that path
+	for pass := 0; pass < 2; pass++ {
+		for i, pk := range pkgs {
+			if !strings.HasPrefix(pk.PkgPath, modulePath) || ssapkgs[i] == nil {
+				continue
+			}
+			if (pass == 0) == isVariant(pk) {
+				continue
+			}
+			if strings.HasSuffix(pk.PkgPath, ".test") || strings.HasSuffix(pk.PkgPath, "_test") {
+				continue // synthesised test mains and external test packages are not part of the library
+			}
 			if _, ok := p.SSAPkgs[pk.PkgPath]; ok {
 				continue
 			}
+			p.Pkgs = append(p.Pkgs, pk)
+			p.SSAPkgs[pk.PkgPath] = ssapkgs[i]
 		}
-		p.Pkgs = append(p.Pkgs, pk)
-		p.SSAPkgs[pk.PkgPath] = ssapkgs[i]
 	}
 	if len(p.Pkgs) == 0 {
 		return nil, fmt.Errorf("no packages of module %s under %s", modulePath, opt.Dir)
